@@ -7,20 +7,7 @@ TRUST = ("Coq 8.16.1 kernel + vm_compute (no native_compute, no extraction); han
          "by a differential correspondence check that evaluates the model inside coqc on the inputs the implementation "
          "ran (sound on sampled inputs only); stdlib real-number axioms as listed by Print Assumptions in the evidence; "
          "harness (generators, float->Q conversion, out-of-tree gfortran build of the f2py solvers). ")
-CLAIMS = {
- "C20": dict(
-   text="Theorems (all inputs): in_domain loop = first-indicator-wins; sphere/layer/ellipsoid/CSG containment iff analytic inequality; "
-        "translate moves the containment region for every CSG tree; bounds contain the interior; overlaps sound+complete, sqrt form = squared form; "
-        "largest_overlap = clamped max; warning and constructor rules; Q instance = R instance. Exact correspondence on dyadic inputs incl. on-surface points. "
-        "Voxel convergence (a limit) is explored only.",
-   note="oracle: numpy sqrt in cartesian_distance (d*d=d2 sampled).",
-   technique="Coq proof over R/Q model + exact differential correspondence (vm_compute in coqc)"),
-
- "C09": dict(
-   text="Theorems (all inputs): the default-theory rule clause by clause (single sphere / one-member cluster / unset centre or radius / layered member / 30-radius closeness / other shapes / non-scatterer), the 30-radius test in squared form = sqrt form, rule invariant under permutation of members and under rotation about z + shift, 'auto' = naming the default, centroid-centred solver coordinates shift invariant and permutation/rotation covariant, Q instance = R instance. Exact correspondence of the rule incl. configurations exactly on the 30-radius boundary. PARTIAL: order independence / symmetry of the multi-sphere SOLVER output (iterative truncated Fortran code) is explored with tolerances, not proved.",
-   note="oracles: SCSMFO Fortran solver (amncalc/tmatrix_fields); numpy sqrt in np.linalg.norm.",
-   technique="Coq proof over R/Q model of the decision rule and centring + exact differential correspondence (vm_compute in coqc); solver symmetry explored"),
-}
+CLAIMS = json.load(open(os.path.join(HERE, "tools", "claims.json")))
 NOT_YET = {}
 def main():
     props = [json.loads(l) for l in open(os.path.join(HERE, "properties.jsonl"))]
